@@ -13,7 +13,7 @@ ASSUMPTIONS = ["the link type is Ethernet (what p2sh assumes for every savefile)
 HARNESS_TIMEOUT = 300
 DRIVER_TIMEOUT = 600
 
-spec_override, judge, classify, model_skip = P.make_hooks("C15", "W")
+spec_override, judge, classify = P.make_hooks("C15", "W")
 canon = P.canon
 
 
@@ -51,4 +51,4 @@ def cases(ctx):
         hdr = [rng.choice([0, 1, 0xFFFFFFFF, rng.getrandbits(32)]) for _ in range(4)]
         fr = P.build(shapes["eth-ipv4-udp"], rng)
         out.append(Case(P.pkt_line(fr, ["Gsec", "Gusec", "Gcaplen", "Gwirelen", "W", "Geth.ipv4.udp.payload", "W"], hdr), ("record-header",)))
-    return out
+    return P.with_fix(ctx, out)
